@@ -72,7 +72,7 @@ def confirm(outdir, n, name):
     return 0
 
 
-def detect(name, tier="quick"):
+def detect(name, tier="quick", seed=None):
     d = os.path.join(ROOT, "seeded", name)
     meta = json.load(open(os.path.join(d, "meta.json")))
     pid = meta["property"]
@@ -82,13 +82,14 @@ def detect(name, tier="quick"):
     assert rc == 0, "patch does not apply to /repo"
     try:
         t0 = time.time()
-        p = subprocess.run([os.path.join(ROOT, "verif.py"), "check", pid, "--tier", tier], cwd=ROOT, capture_output=True, text=True)
+        cmd = [os.path.join(ROOT, "verif.py"), "check", pid, "--tier", tier] + (["--seed", str(seed)] if seed else [])
+        p = subprocess.run(cmd, cwd=ROOT, capture_output=True, text=True)
         out = p.stdout + p.stderr
     finally:
         subprocess.run(["git", "-C", "/repo", "checkout", "--", "."])
         subprocess.run(["git", "-C", "/repo", "clean", "-fdq", "src", "tests"])
     viol = [l for l in out.splitlines() if l.startswith("VIOLATION")]
-    meta.setdefault("detection", {})[tier] = {
+    meta.setdefault("detection", {})[tier if not seed else f"{tier}-seed{seed}"] = {
         "detected": bool(viol) and p.returncode == 1, "exit": p.returncode, "lines": [l for l in out.splitlines() if l.startswith(("VIOLATION", "#", "KNOWN"))][:4],
         "wall_s": round(time.time() - t0, 1), "verif_commit": subprocess.run(["git", "-C", ROOT, "rev-parse", "--short", "HEAD"], capture_output=True, text=True).stdout.strip()}
     json.dump(meta, open(os.path.join(d, "meta.json"), "w"), indent=1)
@@ -98,5 +99,5 @@ def detect(name, tier="quick"):
 
 if __name__ == "__main__":
     if sys.argv[1] == "--detect":
-        sys.exit(detect(sys.argv[2], sys.argv[3] if len(sys.argv) > 3 else "quick"))
+        sys.exit(detect(sys.argv[2], sys.argv[3] if len(sys.argv) > 3 else "quick", int(sys.argv[4]) if len(sys.argv) > 4 else None))
     sys.exit(confirm(sys.argv[1], int(sys.argv[2]), sys.argv[3]))
